@@ -195,6 +195,52 @@ func runChecks(repo, prop, tier, outDir, knownPath, explain, goarch string, star
 		if v := os.Getenv("LH_SWEEP_MAX"); v != "" {
 			fmt.Sscanf(v, "%d", &max)
 		}
+		// (3) canaries: positive examples for the rules that expect zero findings
+		{
+			expServes := map[string]bool{}
+			if b, err := os.ReadFile(filepath.Join(filepath.Dir(knownPath), "expected_rules.json")); err == nil {
+				exp := map[string][]string{}
+				if json.Unmarshal(b, &exp) == nil {
+					for rule, pps := range exp {
+						for _, pp := range pps {
+							if pp == prop {
+								expServes[rule] = true
+							}
+						}
+					}
+				}
+			}
+			// rules that only ever produce findings (no passing instance on a correct tree) are registered here
+			zeroRules := map[string][]string{"Z5.go": {"C16", "C12"}, "R5": {"C12"}}
+			for rule, pps := range zeroRules {
+				for _, pp := range pps {
+					if pp == prop {
+						expServes[rule] = true
+					}
+				}
+			}
+			baseViol := map[string]bool{}
+			for _, o := range mine {
+				if o.Status != "discharged" {
+					baseViol[o.Key] = true
+				}
+			}
+			cres, cfailed := runCanaries(repo, prop, goarch, func(rule string) bool { return expServes[rule] }, baseViol)
+			extra["canaries"] = cres
+			nf, ns := 0, 0
+			for _, c := range cres {
+				if c.Fired {
+					nf++
+				}
+				if c.Skipped {
+					ns++
+				}
+			}
+			fmt.Printf("CANARY: %d positive examples analysed for %s, %d fired, %d skipped\n", len(cres), prop, nf, ns)
+			for _, rule := range cfailed {
+				res.Undecided = append(res.Undecided, "canary: rule "+rule+" did not fire on its positive example (the rule no longer matches what it is meant to find)")
+			}
+		}
 		sw, st := runSweep(repo, prop, goarch, mine, max)
 		extra["sensitivity"] = sw
 		for k, v := range st {
